@@ -92,6 +92,14 @@ def wMapIndexPromote : VWitness :=
     files := [{ language := "all", pkg := "p", options := [.mapToIndex (.byName "S.flags")] },
               { language := "go", pkg := "p", builders := [.promote (.byObject "S") ["flags"]] }] }
 
+/-- `array_to_append` on `ms : []map[string]string` leaves an option whose argument is a map and whose
+    target is the array; `map_to_index` then indexes the *array* with the map's key -/
+def wAppendThenMapToIndex : VWitness :=
+  { ss := wSchema [
+      ("M", { name := "M", selfPkg := "p", selfName := "M",
+              ty := .struct [{ name := "ms", ty := .array (.map wStr wStr {}) {}, required := false }] [] none {} })],
+    files := wFile [] [.arrayToAppend (.byName "M.ms"), .mapToIndex (.byName "M.ms")] }
+
 def vWitness : String → Option VWitness
   | "dup-option-default" => some wDupOption
   | "dup-builder-default" => some wDupBuilder
@@ -103,6 +111,7 @@ def vWitness : String → Option VWitness
   | "sf-opts-after-append" => some wSfOptsAfterAppend
   | "add-assignment-array-to-append" => some wAddAssignmentAppend
   | "map-index-promote" => some wMapIndexPromote
+  | "append-then-map-to-index" => some wAppendThenMapToIndex
   | _ => none
 
 end Cog.Builder
